@@ -27,6 +27,8 @@ import (
 //                   the schema in anyOf; the recorded first-occurrence path is a private copy
 //   R-bind          typed handlers bind the arguments by Marshal -> Unmarshal into a value created for
 //                   this call; the client keeps the schema it received
+//   R-fresh-schema      no schema is served from a package-level cache
+//   (R-bind also requires the arguments map to be marshalled untouched)
 func init() { Registry["C18"] = checkC18 }
 
 const schemaPkg = ir.RootPath + "/internal/schema"
